@@ -107,7 +107,10 @@ func c03Types(c *work.Ctx) {
 	types := universe.Types(2, false)
 	// unsupported kinds must give an error
 	types = append(types, reflect.TypeOf(make(chan int)), reflect.TypeOf(func() {}), reflect.TypeOf(complex(1, 1)),
-		reflect.TypeOf(struct{ F chan int }{}), reflect.TypeOf([]func(){}), reflect.TypeOf(map[string]complex128{}))
+		reflect.TypeOf(struct{ F chan int }{}), reflect.TypeOf([]func(){}), reflect.TypeOf(map[string]complex128{}),
+		// key types encoding/json refuses (their text would not be a string)
+		reflect.TypeOf(map[*int]int{}), reflect.TypeOf(map[*string]int{}), reflect.TypeOf(map[bool]int{}), reflect.TypeOf(map[float64]int{}),
+		reflect.TypeOf([]map[*string]int{}), reflect.TypeOf(struct{ M map[*int]string }{}))
 	opts := &universe.ValOpts{NonFinite: true, BadNumbers: true}
 	entries := c03Entries()
 	encSpace(c, types, D, opts, func(t reflect.Type, v reflect.Value, id string) {
